@@ -8,6 +8,7 @@ mod c16;
 mod c17;
 mod c18;
 mod corpus;
+mod forkrun;
 mod gen;
 mod pool;
 mod prng;
